@@ -1,7 +1,8 @@
 (** C01 -- abstract specification S: every data element is a growable byte array.
     No proofs here.  A byte is a Z in 0..255; [-1] marks a gap skipped over by seeking (unspecified while
     the session lasts, reads as 0 once the file has been closed and reopened); [-2] marks reserved space that
-    was never written (always unspecified). *)
+    was never written (its value is unspecified, but reading it succeeds: the library extends the file over
+    reserved space before reading). *)
 From Coq Require Import ZArith List Bool.
 Require Import H4.gen.Gen_HBlocks.
 Import ListNotations.
@@ -224,7 +225,6 @@ Definition step1 (s : state) (o : op) : state * res :=
         let len := zlen (e_data e) in
         let n' := if (n =? 0) || (len <? n + h_pos x) then len - h_pos x else n in
         let n'' := Z.max 0 n' in
-        if touches_reserved (read_at (e_data e) (h_pos x) n'') then (s, RUnspec) else
         (set_hnd s h (mkhnd (h_file x) (h_key x) (h_pos x + n'') (h_app x) (h_wr x)),
          ROk [n''] (Some (read_at (e_data e) (h_pos x) n''))))
   | OSeek h off origin =>
@@ -244,7 +244,9 @@ Definition step1 (s : state) (o : op) : state * res :=
   | OTrunc h len =>
       with_handle s h (fun x e es =>
         if negb (h_wr x) then (s, RFail) else
-        if e_new e || e_linked e || e_alias e then (s, RUnspec) else
+        if e_new e || e_linked e then (s, RUnspec) else
+        (* truncating through one of several descriptors that share storage (Hdupdd) shortens that descriptor
+           only; the others keep their length and content *)
         let cur := zlen (e_data e) in
         if (len <? cur) && (0 <=? len) then
           let e' := mkelem (e_key e) (firstn (Z.to_nat len) (e_data e)) (e_linked e) (e_new e) (e_alias e) in
@@ -271,7 +273,7 @@ Definition step1 (s : state) (o : op) : state * res :=
       match file_elems s f with
       | None => (s, RFail)
       | Some es => match efind (tag, ref) es with
-                   | Some e => if e_new e || touches_reserved (e_data e) then (s, RUnspec)
+                   | Some e => if e_new e then (s, RUnspec)
                                else (s, ROk [zlen (e_data e)] (Some (e_data e)))
                    | None => (s, RFail) end
       end
